@@ -43,4 +43,42 @@ def generate(repo, T):
     else:
         for nm, lit in zip(("PMF_A", "PMF_B", "CDF_A", "CDF_B"), m.groups()):
             extra.append("/-- source literal %s -/\ndef kll_ERR_%s_bits : UInt64 := 0x%016x" % (lit, nm, f64bits(lit)))
+    # source shapes that two fixes change (pinned shape -> false, repaired shape -> true, anything else = failure)
+    def norm(x):
+        return re.sub(r"\s+", "", x)
+    # (a) const_iterator constructor body
+    mc = re.search(r"::const_iterator::const_iterator\(const T\* items, const uint32_t\* levels, const uint8_t num_levels\):\s*"
+                   r"([^{]*)\{(.*?)\}\s*template<typename T, typename C, typename A>\s*typename kll_sketch<T, C, A>::const_iterator& "
+                   r"kll_sketch<T, C, A>::const_iterator::operator\+\+\(\)", isrc, flags=re.S)
+    INIT = "items(items),levels(levels),num_levels(num_levels),index(items==nullptr?levels[num_levels]:levels[0]),level(items==nullptr?num_levels:0),weight(1)"
+    SKIP = "if(items!=nullptr){while(level<num_levels&&levels[level]==levels[level+1]){++level;weight*=2;}}"
+    flag_iter = "false"
+    if not mc:
+        T.fail("kll_sketch::const_iterator constructor not found in kll_sketch_impl.hpp")
+    elif norm(mc.group(1)) != INIT:
+        T.fail("kll_sketch::const_iterator constructor has an unknown initializer list: %r" % mc.group(1)[:200])
+    elif norm(mc.group(2)) == "":
+        flag_iter = "false"
+    elif norm(mc.group(2)) == SKIP:
+        flag_iter = "true"
+    else:
+        T.fail("kll_sketch::const_iterator constructor has an unknown body: %r" % mc.group(2)[:200])
+    extra.append("/-- the const_iterator constructor skips empty levels, doubling the weight (true), or starts at level 0 with weight 1 (false) -/")
+    extra.append("def kll_ITER_SKIPS_EMPTY_LEVELS : Bool := %s" % flag_iter)
+    # (b) get_quantile: range check of the rank
+    mq = re.search(r"::get_quantile\(double rank, bool inclusive\) const -> quantile_return_type \{.*?if \(([^;{}]*)\) \{\s*throw std::invalid_argument\(\"normalized rank",
+                   isrc, flags=re.S)
+    flag_nan = "false"
+    if not mq:
+        T.fail("kll_sketch::get_quantile range check not found in kll_sketch_impl.hpp")
+    else:
+        g = norm(mq.group(1))
+        if g == "(rank<0.0)||(rank>1.0)":
+            flag_nan = "false"
+        elif g == "!(rank>=0.0&&rank<=1.0)":
+            flag_nan = "true"
+        else:
+            T.fail("kll_sketch::get_quantile range check has an unknown shape: %r" % mq.group(1))
+    extra.append("/-- get_quantile rejects a rank unless `rank >= 0 && rank <= 1` (true: NaN rejected) or only if `rank < 0 || rank > 1` (false: NaN passes) -/")
+    extra.append("def kll_NAN_RANK_REJECTED : Bool := %s" % flag_nan)
     return {"Kll.lean": body.replace("\nend DSGen\n", "\n".join(extra) + "\n\nend DSGen\n")}
